@@ -339,6 +339,8 @@ func c19Case(c *hx.Ctx, r *hx.RNG, idx int64) {
 			var name string
 			isNaN := false
 			var sOK bool = true
+			var fsrc *big.Float // argument of NewFloat64 / NewFloat
+			var slack int64
 			pi := hx.Try(func() {
 				switch which {
 				case 0:
@@ -379,12 +381,22 @@ func c19Case(c *hx.Ctx, r *hx.RNG, idx int64) {
 						f = math.NaN()
 						isNaN = true
 					}
+					if r.Chance(8) && !isNaN {
+						f = math.Copysign(0, -1)
+					}
 					name = fmt.Sprintf("NewFloat64(%v)", f)
+					if !isNaN {
+						fsrc, slack = new(big.Float).SetFloat64(f), 1
+					}
 					z = cx.NewFloat64(f)
-					exact = false // faithful, not exact: judged by C15
+					exact = false // faithful, not exact (C15): sign, class and distance are judged below
 				case 6:
 					bf, _ := genBigFloat(r, "quick")
-					name = "NewFloat(" + bf.Text('g', 10) + ")"
+					if r.Chance(8) {
+						bf.SetInt64(0).Neg(bf)
+					}
+					name = "NewFloat(" + bf.Text('p', 0) + ")"
+					fsrc, slack = new(big.Float).Copy(bf), 64
 					z = cx.NewFloat(bf)
 					exact = false
 				case 7:
@@ -435,6 +447,27 @@ func c19Case(c *hx.Ctx, r *hx.RNG, idx int64) {
 			}
 			if exact {
 				valueVerdict(c, fmt.Sprintf("%s under context prec=%d mode=%s", name, m.prec, oracle.ModeNames[m.mode]), o, got, m.prec, m.mode, "")
+			} else if fsrc != nil {
+				// binary arguments: zeros and infinities map to themselves with their sign, finite values land within the
+				// distance C15 allows (one unit for a float64, a few dozen for a big.Float) of the correctly rounded value
+				switch {
+				case fsrc.IsInf() || fsrc.Sign() == 0:
+					wantForm := oracle.Zero
+					if fsrc.IsInf() {
+						wantForm = oracle.Inf
+					}
+					if got.V.Form != wantForm || got.V.Neg != fsrc.Signbit() {
+						bad("wrong-value", "%s stored %s", name, got)
+						return
+					}
+				default:
+					want := oracle.RoundOnce(exactOfBigFloat(fsrc), m.prec, m.mode)
+					if got.V.Neg != fsrc.Signbit() || !withinUlps(got.V, want.V, m.prec, slack) {
+						bad("wrong-value", "%s stored %s, correctly rounded %s (more than %d unit(s) away)", name, got, want.V.Full(), slack)
+						return
+					}
+				}
+				c.Count("binary_factories_judged", 1)
 			}
 		}
 	}
